@@ -213,7 +213,13 @@ func runCheck(e *Engine, args []string, tier string, timeout int, verif string) 
 	for _, d := range drift {
 		fmt.Printf("CONTRACT-DRIFT: %s\n", d)
 	}
+	reported := map[string]int{}
+	skipped := 0
 	for _, ob := range failed {
+		if ob.Status == "not-attempted" {
+			skipped++
+			continue
+		}
 		known := false
 		for i, f := range ff.Findings {
 			if f.Status == "open" && f.Property == prop && obMatches(f.Obligations, ob.Name) {
@@ -228,12 +234,28 @@ func runCheck(e *Engine, args []string, tier string, timeout int, verif string) 
 			continue
 		}
 		violations++
+		group := ob.Name
+		if i := strings.LastIndex(group, "#"); i > 0 {
+			group = group[:i]
+		}
+		reported[group]++
+		if reported[group] > 2 {
+			continue // same clause failing at further return / call sites: counted, not listed again
+		}
 		path := writeReplay(e, verif, prop, ob)
 		suffix := ""
 		if !replayConfirms(e, verif, ob, path) {
 			suffix = " no-failing-input-found"
 		}
 		fmt.Printf("VIOLATION property=%s replay=%s obligation=%s status=%s%s\n", prop, path, ob.Name, ob.Status, suffix)
+	}
+	if skipped > 0 && violations > 0 {
+		fmt.Printf("NOTE: %d further obligations were not attempted after %d failures\n", skipped, violations)
+	}
+	if skipped > 0 && violations == 0 {
+		// only known findings failed, but the budget was exhausted: rerun without the budget is needed
+		fmt.Printf("ENGINE-ERROR: failure budget exhausted by known findings; %d obligations not attempted\n", skipped)
+		return 2
 	}
 	if len(drift) > 0 && violations == 0 {
 		// a contract no longer binds to the code: nothing was refuted, but nothing is proved either
